@@ -4,6 +4,8 @@ import (
 	"bufio"
 	"encoding/json"
 	"fmt"
+	"go/types"
+	"golang.org/x/tools/go/ssa"
 	"os"
 	"path/filepath"
 	"sort"
@@ -335,6 +337,11 @@ func writeEvidence(cfg *PropConfig, tier string, seed int, all []*FuncReport, to
 	var samples []map[string]string
 	for _, r := range all {
 		fi := fnInfo{Name: r.Label, Mode: "Int (mathematical integers constrained to the Go type's range; wrap-around explicit)", Blocks: r.Blocks, Loops: r.Loops, Notes: r.Notes}
+		if strings.HasPrefix(r.Label, "bounded:") {
+			fi.Mode = "n/a: bounded enumeration executed on the real code (machine arithmetic)"
+		} else if strings.HasPrefix(r.Label, "layout:") {
+			fi.Mode = "n/a: ground equalities decided by evaluation (clang record layouts vs go/types sizes)"
+		}
 		fi.Modelled = "fully"
 		if len(r.Notes) > 0 {
 			fi.Modelled = "partially (see abstractions)"
@@ -379,10 +386,17 @@ func writeEvidence(cfg *PropConfig, tier string, seed int, all []*FuncReport, to
 			boundedDesc = append(boundedDesc, o.Desc)
 		}
 	}
+	evalN := 0
+	for _, o := range obs {
+		if strings.HasPrefix(o.Name, "layout:") && (o.Status == "ok" || o.Status == "unsat") {
+			evalN++
+		}
+	}
 	cov := map[string]interface{}{
 		"bounded_standins":         boundedN,
 		"bounded_descriptions":     boundedDesc,
-		"proved_obligations":       discharged - boundedN,
+		"proved_obligations":       discharged - boundedN - evalN,
+		"evaluated_obligations":    evalN,
 		"obligations":              total,
 		"discharged":               discharged,
 		"checker_cmd":              "/verif/bin/govc check " + cfg.ID + " --tier " + tier,
@@ -467,4 +481,83 @@ func cmdReplay(args []string) int {
 	return 2
 }
 
-func cmdSweep(args []string) {}
+// cmdSweep: zero-annotation safety sweep. Every function of the given packages that has no contract is
+// verified against the default contract (anything may be modified, dynamic calls have no effect, nil
+// dereferences and explicit panics not checked): the obligations left are index, slice, division and shift
+// safety. Failures are CANDIDATES to be triaged by hand (missing preconditions look the same as defects);
+// a sweep is never part of a registered check.
+func cmdSweep(args []string) {
+	var pats []string
+	for _, a := range args {
+		pats = append(pats, "./"+a)
+	}
+	w, err := loadWorld(pats, nil)
+	if err != nil {
+		fmt.Println("UNDECIDED:", err)
+		return
+	}
+	total, failed := 0, 0
+	for _, a := range args {
+		pkgPath := modPath + "/" + a
+		sp := w.Pkgs[pkgPath]
+		if sp == nil {
+			continue
+		}
+		var fns []*ssa.Function
+		for _, m := range sp.Members {
+			switch x := m.(type) {
+			case *ssa.Function:
+				fns = append(fns, x)
+			case *ssa.Type:
+				for _, t := range []types.Type{x.Type(), types.NewPointer(x.Type())} {
+					ms := w.Prog.MethodSets.MethodSet(t)
+					for i := 0; i < ms.Len(); i++ {
+						if f := w.Prog.MethodValue(ms.At(i)); f != nil && f.Pkg == sp && f.Synthetic == "" {
+							fns = append(fns, f)
+						}
+					}
+				}
+			}
+		}
+		seen := map[*ssa.Function]bool{}
+		var all []*ssa.Function
+		var add func(f *ssa.Function)
+		add = func(f *ssa.Function) {
+			if seen[f] || len(f.Blocks) == 0 {
+				return
+			}
+			seen[f] = true
+			all = append(all, f)
+			for _, an := range f.AnonFuncs {
+				add(an)
+			}
+		}
+		for _, f := range fns {
+			add(f)
+		}
+		sort.Slice(all, func(i, j int) bool { return all[i].String() < all[j].String() })
+		for _, f := range all {
+			name := contractName(f)
+			if w.Contracts.Funcs[pkgPath+"::"+name] != nil || strings.HasPrefix(f.Name(), "init") {
+				continue
+			}
+			fc := &FuncContract{Name: name, ModAll: true, DynNoEffect: true, NoNilCheck: true, MayPanic: true}
+			rep := w.VerifyFunc(f, fc, 10)
+			if rep.Err != nil {
+				fmt.Printf("SKIP %s: %v\n", rep.Label, truncate(rep.Err.Error(), 120))
+				continue
+			}
+			for _, o := range rep.Obligations {
+				if !strings.Contains(o.Name, "/safe:") {
+					continue
+				}
+				total++
+				if o.Status != "unsat" {
+					failed++
+					fmt.Printf("CANDIDATE %s [%s] %s %s\n", o.Name, o.Status, o.Pos, o.Desc)
+				}
+			}
+		}
+	}
+	fmt.Printf("sweep: %d safety obligations, %d candidates\n", total, failed)
+}
